@@ -1298,17 +1298,18 @@ impl<'a> Exec<'a> {
         // ---- C04, progress: excess left by earlier in-place growths must shrink --------
         // "... which following operations remove": an operation that runs the maintenance
         // and did not itself grow an entry either brings the cache within its capacity or
-        // evicts a full batch (100 entries single-threaded, 500 per maintenance run)
+        // at least removes something
         let grew = std::mem::take(&mut self.window_growth);
         if self.flags.cap && grew == 0 {
             if let Some(c) = cap {
                 let prev_w: u64 = self.q_prev.entries.iter().map(|e| weight_of(self.cfg, e.w_val) as u64).sum();
                 let ran_maintenance = sync || window.iter().any(|w| matches!(w.prim, Prim::Insert { .. } | Prim::Get { .. } | Prim::Contains { .. } | Prim::Invalidate { .. }));
                 if prev_w > c && phys_w > c && ran_maintenance {
+                    // (how many entries one run evicts is the implementation's business:
+                    // only "nothing at all was removed" is reported)
                     let removed = self.q_prev.entries.iter().filter(|e| !post.has(e.k)).count();
-                    let batch = if sync { 500 } else { 100 };
-                    if removed < batch {
-                        viol!("C04", step, "the cache was over capacity ({prev_w} > {c}) before {:?}, which runs the maintenance and grows nothing; afterwards it is still over capacity ({phys_w}) although only {removed} entries (less than one eviction batch of {batch}) were removed", window.last().map(|w| format!("{:?}", w.prim)).unwrap_or_else(|| "sync()".into()));
+                    if removed == 0 {
+                        viol!("C04", step, "the cache was over capacity ({prev_w} > {c}) before {:?}, which runs the maintenance and grows nothing; afterwards it is still over capacity ({phys_w}) and not a single entry was removed", window.last().map(|w| format!("{:?}", w.prim)).unwrap_or_else(|| "sync()".into()));
                     }
                     self.stats.inc("over_capacity_progress_checks");
                 }
